@@ -228,3 +228,30 @@ Section Load.
     Proof. cbn [oadd]. rewrite parse_nil, omerge_empty_r. reflexivity. Qed.
   End Hom.
 End Load.
+
+(* ------------------------------------------------------------------ last match wins across the layers *)
+(* the matching loops of config.py: result = None; for rule in rules: if matched(rule): result = rule *)
+Definition last_match (m : rule -> bool) (l : list rule) : option rule :=
+  fold_left (fun acc r => if m r then Some r else acc) l None.
+Definition or_else {T} (a b : option T) : option T := match a with Some x => Some x | None => b end.
+
+Lemma last_match_from (m : rule -> bool) (l : list rule) : forall acc : option rule,
+  fold_left (fun acc r => if m r then Some r else acc) l acc = or_else (last_match m l) acc.
+Proof.
+  unfold last_match. set (F := fun (acc : option rule) r => if m r then Some r else acc).
+  induction l as [|r l IH]; intro acc; cbn [fold_left]; [reflexivity|].
+  rewrite IH, (IH (F None r)). destruct (fold_left F l None); [reflexivity|].
+  cbn [or_else]. unfold F. destruct (m r); reflexivity.
+Qed.
+Lemma last_match_app m a b : last_match m (a ++ b) = or_else (last_match m b) (last_match m a).
+Proof. unfold last_match at 1. rewrite fold_left_app. apply last_match_from. Qed.
+
+Theorem load_override parse lay c : load_config parse lay = Ok c ->
+  exists u p e, effective lay = Ok (u, p, e) /\
+    forall f m, last_match m (fam f c) =
+      or_else (last_match m (layer_rules parse f e s_env))
+        (or_else (last_match m (layer_rules parse f p s_project)) (last_match m (layer_rules parse f u s_user))).
+Proof.
+  intro H. destruct (load_order parse lay c H) as [u [p [e [He Hf]]]]. exists u, p, e. split; [exact He|].
+  intros f m. rewrite Hf, !last_match_app. destruct (last_match m (layer_rules parse f e s_env)); reflexivity.
+Qed.
